@@ -153,7 +153,30 @@ def check_heater_setters(ctx, repo):
                 if isinstance(c.func, ast.Attribute) and c.func.attr in want_attr and c.func.attr != "value" and ast.unparse(c.func.value).endswith(".accessor") and len(c.args) == 1:
                     writes.append((n, c.args[0]))
         if not writes:
-            ctx.error(f"{fi.qual}: no write to the target temperature accessor found - idiom not supported by C14.R5")
+            # the write is spelled some other way (a local bound to the accessor, a helper): decided by interpretation -
+            # the heater is built by its constructor on a model facade whose accessors record writes; for values equal
+            # to, below and above the current target the setter hands exactly the caller's value, once, to the target item
+            from ..absint import Interp as _I5, PyRaise as _PR5, Undecided as _UD5
+            gc_ = repo.cls("GeckoConstants")
+            target_key = repo.fold(gc_.consts["KEY_SETPOINT_G"], gc_.mod, gc_)
+            bad = []
+            for v_ in (38.0, 21.5, 40, 38.5):
+                it5 = _I5(repo, max_depth=12)
+                try:
+                    heater, _accs5, rec5 = build_heater(repo, it5, units="C", target=38.0)
+                    rec5.log.clear()
+                    it5.call(fi, heater, [v_])
+                    w_ = [x for x in rec5.log if x[0] == "write"]
+                except _PR5 as e_:
+                    w_ = [("raises", e_.what)]
+                except _UD5 as e_:
+                    raise AnalysisError(f"{fi.qual}({v_}) on the model heater: {e_}")
+                if not (w_ == [("write", target_key, v_)] or (v_ == 38.0 and w_ == [])):
+                    bad.append((v_, w_))
+            n_ok += 1
+            ctx.ob("R5", f"{fi.qual}::writes-the-callers-value", not bad,
+                   f"{fi.qual} on a model heater (target 38.0): (requested, writes made) = {bad[:3]} - expected exactly one write of the caller's value to the target item {target_key!r}", fi.loc,
+                   sample={"rule": "R5", "setter": fi.qual, "mode": "interpreted"})
             continue
         # rebinding of the parameter before the write = altered value
         rebound = [n for n in g.stmt_nodes() for t in ast.walk(n.ast) if isinstance(t, ast.Name) and t.id == par and isinstance(t.ctx, ast.Store)]
